@@ -10,37 +10,37 @@ EXH = "exhaustive small-world enumeration + Hypothesis-generated cases"
 CHECKS = {
     "C01": (
         EXH + " against a definitional reference model (combinations + order-isomorphism); histories re-using memoised pattern objects",
-        "Every (pattern, permutation) pair below a length bound is enumerated and every entry point compared, as a list, with an independent oracle; above the bound Hypothesis plants occurrences, colours and re-uses memoised pattern objects across targets, including lazily consumed searches that overlap in time, searches aborted part-way by an injected asynchronous exception and patterns given in one-shot containers; thorough adds atheris campaigns with the oracle inside the target. Exploration is the right level: the property is universally quantified over an infinite domain; complete small worlds plus generated larger ones reach the off-by-one and memo faults the pruned backtracking search can have.",
+        "Every (pattern, permutation) pair below a length bound is enumerated and every entry point compared, as a list, with an independent oracle; above the bound Hypothesis plants occurrences, colours and re-uses memoised pattern objects across targets, including lazily consumed searches that overlap in time, searches aborted part-way by an injected asynchronous exception and patterns given in one-shot containers; thorough adds atheris campaigns with the oracle inside the target. Exploration is the right level: the property is universally quantified over an infinite domain; complete small worlds plus generated larger ones reach the off-by-one and memo faults the pruned backtracking search can have. Light sweep: listing / count / containment for all patterns of 3-6 points in every target of the next length (7 quick, 9 thorough).",
         "Trusted: pv/oracle.py. Bounded: exhaustive |p|<=4,|t|<=6 quick (|p|<=5,|t|<=8 thorough); generated up to |p|<=6,|t|<=12 and |p|<=4,|t|<=24.",
         "DESIGN.md 4/C01",
     ),
     "C02": (
         "model-based stateful testing: generated query histories (op-list strategy and Hypothesis RuleBasedStateMachine) interpreted against a brute-force model of Av(basis)",
-        "Histories of count / of_length / iterators / up_to_length / first / membership / is_subclass / clear_cache / re-creation / requests aborted part-way by an injected asynchronous exception are run side by side with ref.av (filter of S_n) and compared after every step; iterators are drained at the end. Exploration: the state space of the level cache with in-place compaction is only reachable through histories, which the generator produces and shrinks as one value.",
+        "Histories of count / of_length / iterators / up_to_length / first / membership / is_subclass / clear_cache / re-creation / requests aborted part-way by an injected asynchronous exception are run side by side with ref.av (filter of S_n) and compared after every step; iterators are drained at the end. Exploration: the state space of the level cache with in-place compaction is only reachable through histories, which the generator produces and shrinks as one value. Command line `count` through the library's parser; subclass tests against related bases; mesh bases sharing an underlying permutation and four-point line-shaded elements.",
         "Trusted: reference (mesh) containment. Bounded: n<=7 classical (8 thorough), n<=5 mesh; <=12 ops per history; long_levels with an incremental oracle: every level up to 10 (12 thorough) for Catalan-sized classes, 9 (11) otherwise. Open findings F4 (first on mesh classes), F5 (is_subclass with mesh bases) are classified by exact defect models.",
         "DESIGN.md 4/C02",
     ),
     "C03": (
         EXH + " against a cell-counting reference model; bivincular family against adjacency semantics",
-        "All 2^((k+1)^2) shadings of all patterns of length <=2 against all permutations up to the bound, all adjacency-requirement sets up to length 3, every entry point, every container form of shadings and requirements (one-shot iterators included); generated larger patterns, mixed lists and overlapping lazy enumerations with one pattern object. Exploration over complete small worlds is the right level for a property quantified over all shadings.",
+        "All 2^((k+1)^2) shadings of all patterns of length <=2 against all permutations up to the bound, all adjacency-requirement sets up to length 3, every entry point, every container form of shadings and requirements (one-shot iterators included); generated larger patterns, mixed lists and overlapping lazy enumerations with one pattern object. Exploration over complete small worlds is the right level for a property quantified over all shadings. Structured requirement sets (both ends, one end, inner columns, full) on patterns of 2-5 points with planted occurrences that survive the anchors.",
         "Trusted: oracle mesh_occ and the adjacency formulation (cross-checked against each other in the self-test). Bounded: |t|<=5 quick / 6 thorough exhaustive; generated |p|<=4,|t|<=8.",
         "DESIGN.md 4/C03",
     ),
     "C04": (
         EXH + "; oracle = the eight affine maps of the square on points and cell centres; metamorphic two-sided equivariance",
-        "Each library symmetry is compared with the geometric map on every permutation up to the bound and on mesh patterns; dihedral relations, all_syms = orbit (closure under reverse/inverse), set helpers, lex_min constant on orbits, CLI output; equivariance of containment under all eight symmetries, for fresh pattern objects and for objects whose search table is already memoised.",
+        "Each library symmetry is compared with the geometric map on every permutation up to the bound and on mesh patterns; dihedral relations, all_syms = orbit (closure under reverse/inverse), set helpers, lex_min constant on orbits, CLI output; equivariance of containment under all eight symmetries, for fresh pattern objects and for objects whose search table is already memoised. Every permutation up to length 8 (9 thorough); permutations of 1200-2500 points under the default recursion budget.",
         "Trusted: direction conventions fixed by the documented examples (checked in the self-test). Bounded: all perms <=7 quick / 8 thorough; mesh patterns <=1 exhaustive quick, <=2 thorough, generated <=4.",
         "DESIGN.md 4/C04",
     ),
     "C05": (
         "Hypothesis-generated multisets of patterns of all kinds built in every order + exhaustive small classical multisets; oracle = containment-minimal elements and brute-force class equality",
-        "Each multiset is built in all orders (<=24) and with repetitions through every constructor (lists, tuples, one-shot iterators, strings 0/1-based); results must be equal, hash-equal, antichains, equal to the reference minimal elements, fixed points, same class, same Av object.",
+        "Each multiset is built in all orders (<=24) and with repetitions through every constructor (lists, tuples, one-shot iterators, strings 0/1-based); results must be equal, hash-equal, antichains, equal to the reference minimal elements, fixed points, same class, same Av object. Light sweep of every pair of classical patterns of lengths up to (6, 7) (3.7 million pairs in the quick tier).",
         "Trusted: oracle mesh-in-mesh containment. Bounded: <=4 patterns, lengths <=4 (mesh <=3), class equality to n=5.",
         "DESIGN.md 4/C05",
     ),
     "C06": (
         EXH + "; semantic oracle: composition of occurrences in every permutation up to |B|+1 (exact bound) + independent region arithmetic",
-        "Every reported occurrence of A in B is composed with every reference occurrence of B in every permutation of length <=|B|+1; induced sub-patterns are checked to be implied and strongest (every unshaded cell witnessed).",
+        "Every reported occurrence of A in B is composed with every reference occurrence of B in every permutation of length <=|B|+1; induced sub-patterns are checked to be implied and strongest (every unshaded cell witnessed). Bivincular / vincular / covincular views of line-shaded patterns as smaller and larger pattern; counts compared in every case.",
         "Trusted: oracle mesh_occ. The bound |B|+1 is exact (DESIGN.md). Bounded: |B|<=3 quick / 4 thorough generated; |B|<=1 all shadings, |B|=2 all shadings for sub-patterns.",
         "DESIGN.md 4/C06",
     ),
@@ -52,67 +52,67 @@ CHECKS = {
     ),
     "C09": (
         EXH + "; oracle = enumeration order, independent rank formula, stable-rank standardisation, round trips",
-        "All ranks/permutations up to length 7 (8 thorough), first(k) for every k, all notations; large ranks up to sum k!, k<=12; standardisation of ints/floats/strings/Fractions/tuples/bools with ties and memo histories; validated constructor accepts exactly bijections; MeshPatt rank/unrank/of_length bijective.",
+        "All ranks/permutations up to length 7 (8 thorough), first(k) for every k, all notations; large ranks up to sum k!, k<=12; standardisation of ints/floats/strings/Fractions/tuples/bools with ties and memo histories; validated constructor accepts exactly bijections; MeshPatt rank/unrank/of_length bijective. Every multiset of size n over n letters (n <= 8 / 10) for standardisation; cycle notation, ASCII and TikZ pictures read back; aliases; inputs of thousands of values under the default recursion budget.",
         "Trusted: oracle std/rank. Domain limits stated in evidence (hashable comparable inputs; from_integer leading zero; str round trip <=10).",
         "DESIGN.md 4/C09",
     ),
     "C10": (
         EXH + "; oracle = point configurations + standardisation, definitional interval/run scanners, children/coveredby duality",
-        "Every permutation up to length 6 (8 thorough) with all argument values for insert/remove/shifts; all ordered pairs of length <=4 for composition and sums; generated triples and inflate component lists with None/empty components.",
+        "Every permutation up to length 6 (8 thorough) with all argument values for insert/remove/shifts; all ordered pairs of length <=4 for composition and sums; generated triples and inflate component lists with None/empty components. Light sweep of the simplicity / decomposability predicates on every permutation of length 8 (9 thorough); negative and keyword indices; permutations of ~2000 points.",
         "Trusted: oracle definitions. is_strongly_simple not asserted (docstring and code disagree, no independent definition).",
         "DESIGN.md 4/C10",
     ),
     "C11": (
         EXH + "; oracle = table of independent definitions for 27 of 32 named statistics and all listings; iff-oracle for the distribution / preservation tools",
-        "All permutations up to length 7 (8 thorough) x every statistic, listing and count; tools checked on generated classes and bijections-as-data with the defining identity evaluated on oracle values.",
+        "All permutations up to length 7 (8 thorough) x every statistic, listing and count; tools checked on generated classes and bijections-as-data with the defining identity evaluated on oracle values. Light sweep of listing forms and named statistics at length 8 (9); distributions and equidistribution over mesh classes, pairs of classes whose differences cancel across lengths; documented-formula oracles for all 32 statistics.",
         "Five statistics (bounces, fore/after maxima/minima) have only a weak oracle. Open findings F6 (LIS/LDS bound to longest run) and F16 (layer decomposition) are classified by exact defect models.",
         "DESIGN.md 4/C11",
     ),
     "C12": (
         "exhaustive enumeration of all permutations up to the bound + generated longer ones + generated disturbed histories (fault injection by sys.settrace, owned thread schedules); oracle = device simulation with real containers, characterisations by reference containment, family definitions, Greene's theorem",
-        "One pass of each device, sortable predicates, pattern characterisations, sort counts, the whole Simion-Schmidt map per length (bijection, fixed minima, inverse, rejection), named families from their definitions; disturbed histories: every operator again after an earlier call was aborted at a generated line (injected asynchronous exception) and while 2-4 calls overlap under an owned schedule.",
+        "One pass of each device, sortable predicates, pattern characterisations, sort counts, the whole Simion-Schmidt map per length (bijection, fixed minima, inverse, rejection), named families from their definitions; disturbed histories: every operator again after an earlier call was aborted at a generated line (injected asynchronous exception) and while 2-4 calls overlap under an owned schedule. Light sweep of the devices at length 9 (10 thorough); direct sums of small blocks up to length 20.",
         "Trusted: oracle devices; characterisations are cross-checked against the devices in the self-test before use. 'smooth' = docstring definition.",
         "DESIGN.md 4/C12",
     ),
     "C18": (
         EXH + "; oracle = equality of container sets up to |p|+2 (+3 thorough) by reference containment; semantic point insertion; own plot parser",
-        "Whenever can_shade / can_simul_shade / shadable_boxes license cells, the permutations containing the pattern before and after shading are compared; add_point/add_increase/add_decrease against 'some occurrence has a point (pair) in the cell'; ascii_plot parsed back.",
+        "Whenever can_shade / can_simul_shade / shadable_boxes license cells, the permutations containing the pattern before and after shading are compared; add_point/add_increase/add_decrease against 'some occurrence has a point (pair) in the cell'; ascii_plot parsed back. Every rectangle of every pattern up to length 4 for the region tests; TikZ read back; bivincular twins must give the same verdicts.",
         "Bounded witness length (|p|+2 quick); all patterns of length <=2 exhaustive, generated 3-4.",
         "DESIGN.md 4/C18",
     ),
     "C07": (
         "schedule-owning thread harness (sys.settrace preemption at every line of permset.py, cooperative replacement of the class lock) driven by Hypothesis-generated and PCT-style schedules; sequential brute-force model as oracle; real-thread stress run",
-        "Each case is (basis, 2-4 thread programs, schedule); every lock permset.py holds or creates (class attributes, class-level dicts, multiprocessing/threading Lock/RLock made lazily) is made cooperative, whatever the locking scheme; exactly one thread runs at a time so the run is a pure function of code and case and shrinks/replays as one value; every query result is compared with the sequential answer, exceptions and deadlocks are violations. Exploration: schedules are sampled, not enumerated.",
+        "Each case is (basis, 2-4 thread programs, schedule); every lock permset.py holds or creates (class attributes, class-level dicts, multiprocessing/threading Lock/RLock made lazily) is made cooperative, whatever the locking scheme; exactly one thread runs at a time so the run is a pure function of code and case and shrinks/replays as one value; every query result is compared with the sequential answer, exceptions and deadlocks are violations. Exploration: schedules are sampled, not enumerated. Lazily consumed enumerations with a scheduling point per item, threads racing to construct the class, parked deep builds against near-member / tail-occurrence membership queries.",
         "Preemption granularity = one source line of permset.py; library code called from there runs atomically. A foreign blocking primitive introduced by a change shows up as a harness stall (exit 2), not as a violation.",
         "DESIGN.md 3.5, 4/C07",
     ),
     "C13": (
         "Hypothesis-generated bases in every container form / order / symmetry + exhaustive small bases + verdict-call histories; oracle = structure theorems with membership decided by reference avoidance of the published bases of the ten classes; enumeration consistency",
-        "Verdicts of is_finite / is_polynomial / is_insertion_encodable(_rightmost/_maximum), the Av wrappers and the CLI are compared with the theorems on list, tuple, set, frozenset, Basis, generator, one-shot iterator, dict-keys and reversed containers under all eight symmetries; finite classes must be empty beyond the Erdos-Szekeres bound, infinite ones never, non-polynomial ones at least Fibonacci-sized; 'earlier calls' include a call aborted part-way by an injected asynchronous exception and calls still running in other threads (owned schedule) on fresh long basis elements.",
+        "Verdicts of is_finite / is_polynomial / is_insertion_encodable(_rightmost/_maximum), the Av wrappers and the CLI are compared with the theorems on list, tuple, set, frozenset, Basis, generator, one-shot iterator, dict-keys and reversed containers under all eight symmetries; finite classes must be empty beyond the Erdos-Szekeres bound, infinite ones never, non-polynomial ones at least Fibonacci-sized; 'earlier calls' include a call aborted part-way by an injected asynchronous exception and calls still running in other threads (owned schedule) on fresh long basis elements. Membership of every permutation up to length 7 (8) in each of the ten / 4 + 4 classes read off the public verdicts; verdicts on all pairs to length 5 and triples to 4; command line through the library's parser.",
         "Published bases are cross-checked against split-point definitions on S_<=6 in the self-test. Enumeration for lengths 7-9 trusts Av (C02), cross-checked up to 6.",
         "DESIGN.md 4/C13",
     ),
     "C14": (
         "exhaustive enumeration of all pin words / (word, permutation) pairs below a length bound + Hypothesis-generated longer ones; oracle = order-theoretic decoder, true containment, own Theorem 3.13 matcher",
-        "Decoding, quadrants, factors, the three tables, the SP<->M translations for every word up to length 5 (6 thorough); containment reflection for every (w, sigma) with |sigma| <= |w| <= 4 and generated sub-permutations / near misses up to length 8; strict pin words read off long words with periodic direction tails (overlapping occurrences) against the quadrant-based definition.",
+        "Decoding, quadrants, factors, the three tables, the SP<->M translations for every word up to length 5 (6 thorough); containment reflection for every (w, sigma) with |sigma| <= |w| <= 4 and generated sub-permutations / near misses up to length 8; strict pin words read off long words with periodic direction tails (overlapping occurrences) against the quadrant-based definition. Strict pin words on words with periodic direction tails (overlapping occurrences); words of 300-1100 letters under the default recursion budget; tables to length 6 (7).",
         "Own matcher = truth is asserted first (harness error otherwise). Open finding F8 (touching direction-led factor) is classified by the matcher without the gap condition.",
         "DESIGN.md 4/C14",
     ),
     "C15": (
         "exhaustive enumeration of (single-permutation basis, direction word) pairs + generated bases; oracle = semantic language (reference containment on the decoded pin sequence), own product/cycle search on the automaton's transition table",
-        "All four construction routes must accept exactly the words of M whose encoded permutation contains a basis element (all words up to length 9/10); has_finite_pinperms against an own cycle search with semantic confirmation in both directions; database vs scratch by own product BFS.",
+        "All four construction routes must accept exactly the words of M whose encoded permutation contains a basis element (all words up to length 9/10); has_finite_pinperms against an own cycle search with semantic confirmation in both directions; database vs scratch by own product BFS. Automaton of a single pin word against its regular expression, exhaustive transition cover for strict pin words to 8 letters (11); bases with permutations without pin words; a 7-point pin permutation of the exceptional shape; listing orders with interleaved lengths.",
         "Words of length < 2 encode nothing. Semantic 'finite' confirmation needs l*+1 <= 11.",
         "DESIGN.md 4/C15",
     ),
     "C16": (
         "Hypothesis-generated structured bases (boundary classes derived by brute force from explicit chains of simples) + exhaustive small bases; oracle = Schmerl-Trotter enumeration of simples and explicit infinite chains; metamorphic invariance across entry points, orders and symmetries",
-        "'infinite' must be witnessed by simples in one of every two consecutive lengths up to N; 'finite' must hit each of the 24 oriented explicit chains and bound the avoiding pin sequences; all entry points (utility, class method, strategy, CLI) agree and are symmetry invariant.",
+        "'infinite' must be witnessed by simples in one of every two consecutive lengths up to N; 'finite' must hit each of the 24 oriented explicit chains and bound the avoiding pin sequences; all entry points (utility, class method, strategy, CLI) agree and are symmetry invariant. Exact check of the three component verdicts (alternations, both wedge types) against explicit chains; bases with a 7-point element or an element without pin words; listing orders with interleaved lengths.",
         "Both directions are consequences of theorems (no false alarms) but bounded (N; the chains constructed). Enumeration trusts Av (C02) beyond length 6.",
         "DESIGN.md 4/C16",
     ),
     "C17": (
         "Hypothesis-generated finite input sets in three representations; oracle = the three guarantees (sound up to n, complete up to m, cell-wise irredundant) evaluated with reference mesh containment; differential check of the algorithm's private containment tests; auto_bisc end-to-end on generated properties",
-        "bisc output for arbitrary finite sets A (not only classes) is checked against A itself with the reference model; clean-up bases must hit every tested bad permutation and round-trip; the driver's sanity checks patterns_suffice_for_good/_for_bad are tested two-sided with intruders placed only at the last length; auto_bisc's description must coincide with the property on all permutations of length <= 8.",
+        "bisc output for arbitrary finite sets A (not only classes) is checked against A itself with the reference model; clean-up bases must hit every tested bad permutation and round-trip; the driver's sanity checks patterns_suffice_for_good/_for_bad are tested two-sided with intruders placed only at the last length; auto_bisc's description must coincide with the property on all permutations of length <= 8. Two-sided test of the driver's sanity checks; list input in several orders; corpus of properties that drive the driver into its bad-basis branch.",
         "n <= 5, m <= 4; auto_bisc under a time budget (hit = inconclusive).",
         "DESIGN.md 4/C17",
     ),
@@ -124,7 +124,7 @@ CHECKS = {
     ),
     "C20": (
         "model-based stateful testing with fault injection (op-list strategy + Hypothesis RuleBasedStateMachine) over a scratch directory; exhaustive check of all shipped data against the family definitions; automaton database histories with own language-equivalence BFS",
-        "Write/rewrite/read/delete/truncate/empty/garbage histories against a dict model of the directory, including user files named like the shipped data sets (never written / written then deleted); every shipped (family, length) is a duplicate-free partition of S_k with good = the family by the C12 oracle definitions; loaded automata are language-equivalent to fresh ones after any store/create/load/forget history.",
+        "Write/rewrite/read/delete/truncate/empty/garbage histories against a dict model of the directory, including user files named like the shipped data sets (never written / written then deleted); every shipped (family, length) is a duplicate-free partition of S_k with good = the family by the C12 oracle definitions; loaded automata are language-equivalent to fresh ones after any store/create/load/forget history. User files named like shipped data sets; databases with automata of permutations without pin words; create_dfa_db_for_length as a whole (lengths to 4 quick, 6 thorough).",
         "Fault model = missing, truncated, emptied, non-JSON bytes. Two emptied len9 files are asserted to be reported invalid and skipped.",
         "DESIGN.md 4/C20",
     ),
